@@ -143,6 +143,9 @@ structure Setup where
   useSpec : Bool := false                    -- evaluate the body with the spec's outcome (for the oracle)
   origBytes : Stream.Bytes
   origVal : Option Body.J         -- none: not JSON
+  /-- the received text is what the JSON encoder writes for its value (compact, keys sorted): re-encoding the unchanged
+      value gives the very same bytes -/
+  origCanonical : Bool := false
 
 structure PassOut where
   req : Stream.Req
@@ -162,12 +165,18 @@ def lookupBytes (t : List (Stream.Bytes × Option Body.J)) (b : Stream.Bytes) : 
 /-- decoding + validation of the bytes: media type selection, the value layer, the encoder -/
 def evalBody (su : Setup) (table : List (Stream.Bytes × Option Body.J)) (fresh : Stream.Bytes) (data : Stream.Bytes) :
     Stream.BodyOutcome × Option Body.J :=
-  let parse := fun d => lookupBytes table d
-  let text := fun (_ : Stream.Bytes) => Body.J.str su.origText
-  let out := if su.useSpec then Media.specOutcome su.ctx su.declared su.header parse text (fun _ => fresh) data
-             else Media.bodyOutcome su.ctx su.declared su.header parse text (fun _ => fresh) data
+  -- the generator sends only JSON texts under a YAML media type: the YAML decoder reads them as the same value;
+  -- the encoder: an unchanged value whose text already is the encoder's own output is written as the same bytes
+  let canonical := if data == su.origBytes then su.origCanonical else true
+  let enc := fun (v : Body.J) => match lookupBytes table data with
+    | some dv => if canonical && Body.J.beq v dv then data else fresh
+    | none => fresh
+  let cd : Media.Codec := { parse := fun d => lookupBytes table d, yaml := fun d => lookupBytes table d,
+                            text := fun _ => su.origText, enc := enc }
+  let out := if su.useSpec then Media.specOutcome su.ctx su.declared su.header cd data
+             else Media.bodyOutcome su.ctx su.declared su.header cd data
   let newVal := match Media.selected su.declared su.header with
-    | some (some s) => (Media.decoded su.header parse text data).bind (fun v => Body.visit su.ctx s v)
+    | some (some s) => (Media.decoded su.header cd data).bind (fun v => if su.useSpec then Body.specVisit su.ctx s v else Body.visit su.ctx s v)
     | _ => none
   (out, match out with | .rewrite _ => newVal | _ => none)
 
@@ -214,6 +223,12 @@ partial def schemaBranches (s : Body.S) : List String :=
       (bs.map schemaBranches).flatten
 end
 
+/-- some object member, at any depth, is an explicit null (the class of the repaired finding #24) -/
+partial def hasNullMember : Body.J → Bool
+  | .arr xs => xs.any hasNullMember
+  | .obj kvs => kvs.any (fun kv => kv.2.isNull || hasNullMember kv.2)
+  | _ => false
+
 def dedup (l : List String) : List String := l.foldr (fun x acc => if acc.contains x then acc else x :: acc) []
 
 def handle (j : Json) : Json :=
@@ -227,7 +242,7 @@ def handle (j : Json) : Json :=
     ((strs (asArr q)).foldr insName []).map (fun n => { declared := declared.contains n, auth := authOf n }))
   let bs := getD j "bodySpec" Json.null
   let skip := getBool o "skip"
-  let ctx : Body.Ctx := { setDefaults := !skip, roDisabled := getBool o "roDisabled", nullIsAbsent := true }
+  let ctx : Body.Ctx := { setDefaults := !skip, roDisabled := getBool o "roDisabled", multi := getBool o "multi" }
   let bodyText : Option String := match j.getObjVal? "body" with | .ok (.str s) => some s | _ => none
   let origVal : Option Body.J := match bodyText with
     | some t => (match Json.parse t with | .ok v => some (toJ v) | .error _ => none)
@@ -245,7 +260,10 @@ def handle (j : Json) : Json :=
     hasFunc := getBool sec "hasFunc", reqs := reqs, params := Params.visited exq pathParams opParams,
     hasBodySpec := getBool bs "present", required := getBool bs "required",
     declared := declaredContent, header := header, origText := bodyText.getD "",
-    origBytes := origBytes, origVal := origVal }
+    origBytes := origBytes, origVal := origVal,
+    origCanonical := match bodyText with
+      | some t => (match Json.parse t with | .ok v => v.compress == t | .error _ => false)
+      | none => false }
   let stm := getD j "stream" Json.null
   let clKnown := getStr stm "cl" != "unknown"
   let r0 : Stream.Req := {
@@ -260,29 +278,31 @@ def handle (j : Json) : Json :=
   let p2 := runPass su 2 (if reuse then p1.view else p1.store) p1.req p1.store p1.table
   -- spec
   let selS := Media.selected su.declared header
-  let v0 : Option Body.J := Media.decoded header (fun _ => origVal) (fun _ => Body.J.str su.origText) origBytes
+  let cd0 : Media.Codec := { parse := fun _ => origVal, yaml := fun _ => origVal, text := fun _ => su.origText, enc := fun _ => [] }
+  let v0 : Option Body.J := Media.decoded header cd0 origBytes
   let bodyReached := su.hasBodySpec && !su.excludeBody && bodyText.isSome && !origBytes.isEmpty && !su.declared.isEmpty
   let bodyActive := bodyReached && (match selS with | some (some _) => true | _ => false) && v0.isSome &&
-    Media.decoderOf (Media.base header) == .json
+    (Media.decoderOf (Media.base header) == .json || Media.decoderOf (Media.base header) == .yaml)
   let selSchema : Option Body.S := match selS with | some (some s) => some s | _ => none
   let specBody : Json := match selSchema, v0 with
-    | some s, some v => (match Body.visit (Body.specCtx ctx) s v with | some v' => ofJ v' | none => Json.null)
+    | some s, some v => (match Body.specVisit ctx s v with | some v' => ofJ v' | none => Json.null)
     | _, _ => Json.null
   let bodyExpected : String := match selSchema, v0 with
-    | some s, some v => (match Body.visit (Body.specCtx ctx) s v with | some _ => "value" | none => "reject")
+    | some s, some v => (match Body.specVisit ctx s v with | some _ => "value" | none => "reject")
     | _, _ => "na"
-  let noEnc := bodyReached && Media.NoBodyEncoder ctx su.declared header (fun _ => origVal) (fun _ => Body.J.str su.origText) origBytes
+  let noEnc := bodyReached && Media.NoBodyEncoder ctx su.declared header cd0 origBytes
   let pS := runPass { su with useSpec := true } 1 st0 r0 st0 [(origBytes, origVal)]
   let specStore := Params.specParams skip su.params st0
   -- exclusion classes
   let excl :=
     (match selSchema, v0 with
      | some s, some v =>
-       (if bodyActive && !skip && (Body.hasNullProp v || !Body.cleanDefaults s) then ["NullReplaced"] else []) ++
        (if bodyActive && !skip && Body.BranchShift ctx s v then ["BranchShift"] else [])
      | _, _ => []) ++
     (if su.params.any (fun p => Params.DefaultReadsAsEmpty skip p st0) then ["DefaultReadsAsEmpty"] else []) ++
+    (if su.params.any (fun p => Params.EmptyArrayWritten skip p st0) then ["EmptyArrayWritten"] else []) ++
     (if noEnc then ["NoBodyEncoder"] else []) ++
+    (if bodyReached && Media.ReencodedUnchanged ctx su.declared header cd0 origBytes then ["ReencodedUnchanged"] else []) ++
     (if su.params.any (fun p => Params.ContentParamDefault skip p st0) then ["ContentParamDefault"] else [])
   let anyReq := fun (f : Stream.Scheme → Bool) => reqs.any (fun q => q.any f)
   let branches := dedup (
@@ -300,6 +320,8 @@ def handle (j : Json) : Json :=
     (if !clKnown then ["stream.clUnknown"] else []) ++
     (if origBytes.isEmpty && bodyText.isSome then ["stream.emptyBody"] else []) ++
     (if bodyText.isSome && origVal.isNone then ["body.notJSON"] else []) ++
+    (if bodyActive && (match origVal with | some v => hasNullMember v | none => false) then ["body.explicitNull"] else []) ++
+    (if bodyActive && !su.origCanonical then ["body.textNotCanonical"] else []) ++
     (if (header.toList.contains ';') then ["media.params"] else []) ++
     (if bodyReached then (match Media.contentGet (su.declared.map (·.1)) header with
        | none => ["media.unmatched"]
@@ -309,7 +331,7 @@ def handle (j : Json) : Json :=
     (if su.declared.length > 1 then ["media.several"] else []) ++
     (if bodyReached && (match selS with | some none => true | _ => false) then ["media.noSchema"] else []) ++
     (if bodyReached then (match Media.decoderOf (Media.base header) with
-       | .none => ["media.noDecoder"] | .plain => ["media.plain"]
+       | .none => ["media.noDecoder"] | .plain => ["media.plain"] | .yaml => ["media.yaml"]
        | .json => if Media.base header != "application/json" then ["media.jsonFamily"] else []) else []) ++
     (if !pathParams.isEmpty then ["param.pathLevel"] else []) ++
     (if pathParams.any (Params.overridden opParams) then ["param.overridden"] else []) ++
